@@ -209,6 +209,8 @@ func probe() {
 	reqa(kube(good, "bearer"), "spiffe://cluster.local/ns/a/sa/b", "c1") // ambient flow: workload on its node
 	reqa(kube(good, "bearer"), "spiffe://cluster.local/ns/c/sa/d", "c1") // workload of another node
 	reqa(kube(good, "basic"), "", "c1")                                  // no bearer token
+	reqa(kube(good, "two"), "", "c1")                                    // an invalid bearer token in front of the valid one
+	reqa(kube(good, "two2"), "", "c1")                                   // ... and behind it
 	reqa(kube(good, "bearer"), "", "unknown")                            // cluster istiod does not know
 	bad := good
 	bad.authenticated = false
